@@ -44,6 +44,11 @@ def ufull_prog(T, cap=5):
         steer(k, "n")
         add("arrali_%d" % k, {"k": "array", "elem": gen.tref(["Ta"]), "cap": gen.lit(3), "ext": False},
             {"k": "array", "ext": False, "cap": 3, "elem": ali}, 3 * n)
+    for k in (0, 6):
+        # two-dimensional: an array whose elements are the aliased array (rows must stay separate objects)
+        steer(k, "g")
+        add("grid_%d" % k, {"k": "array", "elem": gen.tref(["Tarr"]), "cap": gen.lit(3), "ext": False},
+            {"k": "array", "ext": False, "cap": 3, "elem": aliarr}, 6 * n)
     add("pad_tail", {"k": "uint", "n": 3}, {"k": "uint", "n": 3}, 3)
     rt = {"k": "msg", "name": "Top", "ext": False, "fields": fields}
     prog = {"files": {"main": [{"d": "proto", "name": "main"}] + top_decls +
